@@ -732,6 +732,27 @@ def scoped_pending(F, parts=("containers",)):
             r.ob(ok, {"container": name, "drained_at_end_unconditionally": ok})
             if not ok:
                 r.violate("%s | %s drain" % (rs["path"], name), F.loc(rs, arm), "at a block's `end`, pending container `%s` %s: bodies waiting there for this block are silently never emitted" % (name, why))
+    # at `Else` the bodies waiting for the if's else are drained before anything in the arm can `continue` (an else that is
+    # replaced by a block alt still ends the then-arm: its exit probe belongs where the else stood)
+    if "containers" in parts:
+        else_arms = []
+        for m in walk(rs["body"]):
+            if m.get("k") == "Match" and "Operator" in (m.get("scrut_ty") or ""):
+                for arm in m["arms"]:
+                    if {v for _, v in pat_variants(arm["pat"])[0]} == {"Else"}:
+                        else_arms.append(arm)
+        for arm in else_arms[:1]:
+            rms = [n for n in walk(arm["body"]) if n.get("k") == "MethodCall" and n["method"] == "remove" and (place_path(n["recv"]) or "") == "resolve_on_else_or_end"]
+            ok = bool(rms) and every_iteration(arm["body"], rms[0])[0]
+            # the remove sits in an `if let .. = stack.last().and_then(|id| map.remove(id))`: closures inside the scrutinee are fine
+            if rms and not ok:
+                why = every_iteration(arm["body"], rms[0])[1]
+                if why.startswith("only under a conditional (Closure"):
+                    early = [x for x in walk(arm["body"]) if x.get("k") == "Continue" and x["sp"][0] < rms[0]["sp"][0]]
+                    ok = not early
+            r.ob(ok, {"else arm drains resolve_on_else_or_end first": ok})
+            if not ok:
+                r.violate("%s | else drain order" % rs["path"], F.loc(rs, arm), "at an `else`, the bodies waiting for it (the if's block-exit probe) are resolved only after code that can `continue`: when the else is replaced by a block alt they are emitted at the later `end`, after the replacement")
     if "flag" not in parts:
         return r
     rb = F.one_fn(name="resolve_bodies")
@@ -839,8 +860,55 @@ def save_siblings(F):
                 r.violate("%s | first-insert %s vs push %s" % (fn["path"], "+".join(sorted(populated)) or "none", "+".join(sorted(pushes))), F.loc(fn, lit),
                           "%s pushes later bodies to `%s` but its first-insert literal populates `%s`: the first body filed for a block/mode changes kind (a flag-guarded probe becomes unconditional or the reverse)" % (fn["name"], sorted(pushes), sorted(populated)))
     r.count("first_insert_literals", n)
-    if n < 4:
-        raise CheckError("expected ≥4 InstrToInject first-insert literals in the save_* helpers, found %d" % n)
+    # the save_* helpers (functions that take a pending map and a body and push/insert into it)
+    helpers = []
+    for fn in F.fns:
+        if fn.get("body") is None:
+            continue
+        has_map = any("InstrToInject" in (pm.get("ty") or "") and "HashMap" in (pm.get("ty") or "") for pm in fn.get("params", []))
+        has_body = any("Operator" in (pm.get("ty") or "") and "Vec" in (pm.get("ty") or "") for pm in fn.get("params", []))
+        files_directly = any((x.get("k") == "Struct" and (x.get("adt") or "").endswith("InstrToInject") and "rest" not in x and any(isinstance(f_, list) and isinstance(f_[1], dict) and f_[1].get("k") not in ("Binding", "Wild") for f_ in x.get("fields", []))) or
+                             (x.get("k") == "MethodCall" and x["method"] == "push" and (place_path(x["recv"]) or "").endswith(("flagged", "not_flagged")))
+                             for x in walk(fn["body"]))
+        calls_filer = any(x.get("k") == "Call" and (x.get("callee") or "").endswith("_inner") for x in walk(fn["body"]))
+        if has_map and has_body and (files_directly or (calls_filer and not any("Operator<" in (pm.get("ty") or "") and "Vec" not in (pm.get("ty") or "") for pm in fn.get("params", [])))):
+            helpers.append(fn)
+    r.count("save_helpers", len(helpers))
+    if len(helpers) < 3:
+        raise CheckError("expected the three save_* helpers (pending map + body parameters), found %d" % len(helpers))
+    for fn in helpers:
+        if fn["path"] not in r.analysed:
+            r.analysed.append(fn["path"])
+        body_params = {p["pat"].get("hid") for p in fn["params"] if "Operator" in (p.get("ty") or "") and "Vec" in (p.get("ty") or "")}
+        # (a) the body is stored on every path: conditional stores are allowed only as the two arms of an entry()
+        #     and_modify/or_insert pair (both arms store) — a bare `if let Some(x) = map.get_mut(..) { push }` drops the body
+        #     when the entry does not exist yet
+        stores = []
+        for c in walk(fn["body"]):
+            uses_body = any(x.get("k") == "Path" and x.get("res", {}).get("hid") in body_params for x in walk(c.get("args") or []))
+            if c.get("k") == "MethodCall" and c["method"] in ("push", "or_insert", "or_insert_with", "insert", "extend") and uses_body:
+                stores.append(c)
+            if c.get("k") == "Call" and (c.get("callee") or "") in F.by_path and F.by_path[c["callee"]][0] in helpers and uses_body:
+                stores.append(c)
+        ok = bool(stores)
+        why = "never stores the body"
+        if ok:
+            # an unconditional store: hangs under no If/Match (closures of and_modify are fine when an or_insert store exists in the same chain)
+            def uncond(c):
+                conds = conditional_ancestors(fn["body"], c) or []
+                return not [x for x in conds if x.get("k") in ("If", "Match")]
+            plain = [c for c in stores if uncond(c)]
+            has_or_insert = any(c["k"] == "MethodCall" and c["method"] in ("or_insert", "or_insert_with") and not [x for x in (conditional_ancestors(fn["body"], c) or []) if x.get("k") in ("If", "Match")] for c in stores)
+            if not has_or_insert and not any(not (conditional_ancestors(fn["body"], c) or []) for c in plain):
+                ok, why = False, "stores the body only when an entry already exists (no or_insert / unconditional store): the first body filed for a block or mode is dropped"
+        r.ob(ok, {"helper": fn["name"], "stores_on_every_path": ok})
+        if not ok:
+            r.violate("%s | may drop body" % fn["path"], F.loc(fn), "%s %s" % (fn["name"], why))
+        # (b) no wholesale insert into a pending map of maps: it replaces what other modes already filed for the block
+        for c in walk(fn["body"]):
+            if c.get("k") == "MethodCall" and c["method"] == "insert" and "HashMap<u32, std::collections::HashMap" in (c.get("recv_ty") or "").replace("&mut ", ""):
+                r.ob(False, {"helper": fn["name"], "outer_insert": True})
+                r.violate("%s | outer insert" % fn["path"], F.loc(fn, c), "%s inserts a fresh per-block map with `insert` (not `entry().or_insert`): if the block already has bodies pending in another mode they are discarded" % fn["name"])
     return r
 
 
